@@ -19,6 +19,11 @@ package main
 //                                                            arena[off : off+512 : off+cap]
 //       memparseblobslegacy  same request; the model side runs the pre-D7-fix parser
 //       memparsetxs          <arena> <off:cap,...>           share.ParseTxs on the views
+//       memcommitleaves      <arena> <off:cap,...> <thr>     share.ParseBlobs on the views, then
+//                                                            inclusion.GenerateSubtreeRoots on every parsed blob
+//       memsparsewrite       <arena> <off:cap,...>           share.ParseBlobs on the views, then
+//                                                            SparseShareSplitter.Write of every parsed blob
+//       (mem...legacy: same request; the model side runs the `append(view, ...)` variant)
 //     answer:  <first modified arena offset | none> ; <result>
 //
 //  3. Concurrency.  `harness racecheck <seed> <tier>` runs 8 goroutines that perform
@@ -774,6 +779,10 @@ func genC17(c *Ctx) {
 		}
 	}
 
+	// C17commit begin: ParseBlobs on arena views, then commit to / re-write the parsed blobs (Model/MemCommit.v)
+	c17CommitCases(c, r)
+	// C17commit end
+
 	// ---- 3. concurrency: the race-instrumented sibling binary ----
 	c17RunRaceBinary(c, r.U64()%1000000)
 }
@@ -1141,3 +1150,129 @@ func c17RunRaceBinary(c *Ctx, seed uint64) {
 		c.check(status == 0, "racecheck", "the concurrent run did not complete", map[string]any{"exit_status": status, "first_line": first})
 	}
 }
+
+// C17commit begin
+// ---------------------------------------------------------------------------
+// correspondence for the commit / re-write paths: a blob returned by ParseBlobs
+// keeps sub-slices of the shares (namespace = share.data[:29] with the capacity
+// of the share buffer, signer = share.data[34:54]); the explicit-memory model
+// Model/MemCommit.v predicts the same line (first modified offset; roots / shares)
+// ---------------------------------------------------------------------------
+
+func init() {
+	extraOps["memcommitleaves"] = memCommitLeaves
+	extraOps["memcommitleaveslegacy"] = memCommitLeaves
+	extraOps["memsparsewrite"] = memSparseWrite
+	extraOps["memsparsewritelegacy"] = memSparseWrite
+}
+
+func memCommitLeaves(a []string) string {
+	arenaBytes := unhx(a[0])
+	snap := append([]byte(nil), arenaBytes...)
+	shs := memViews(arenaBytes, a[1])
+	thr := atoi(a[2])
+	res := "err"
+	if blobs, err := share.ParseBlobs(shs); err == nil {
+		parts := make([]string, 0, len(blobs))
+		ok := true
+		for _, b := range blobs {
+			roots, err := inclusion.GenerateSubtreeRoots(b, thr)
+			if err != nil {
+				ok = false
+				break
+			}
+			parts = append(parts, showList(hx, roots))
+		}
+		if ok {
+			res = "ok:[" + strings.Join(parts, ",") + "]"
+		}
+	}
+	return memDiff(arenaBytes, snap) + ";" + res
+}
+
+func memSparseWrite(a []string) string {
+	arenaBytes := unhx(a[0])
+	snap := append([]byte(nil), arenaBytes...)
+	shs := memViews(arenaBytes, a[1])
+	res := "err"
+	if blobs, err := share.ParseBlobs(shs); err == nil {
+		parts := make([]string, 0, len(blobs))
+		ok := true
+		for _, b := range blobs {
+			sss := share.NewSparseShareSplitter()
+			if err := sss.Write(b); err != nil {
+				ok = false
+				break
+			}
+			parts = append(parts, showList(hx, share.ToBytes(sss.Export())))
+		}
+		if ok {
+			res = "ok:[" + strings.Join(parts, ",") + "]"
+		}
+	}
+	return memDiff(arenaBytes, snap) + ";" + res
+}
+
+// c17AddCommitCase is c17AddMemCase for the two composed requests (extra trailing arguments).
+func c17AddCommitCase(c *Ctx, op string, shares [][]byte, slack int, idx []int, caps []int, extra []string, desc string) {
+	arenaBytes := make([]byte, 0, len(shares)*512+slack)
+	for _, s := range shares {
+		arenaBytes = append(arenaBytes, s...)
+	}
+	arenaBytes = append(arenaBytes, c.rng.Bytes(slack)...)
+	views := make([]string, len(idx))
+	for i, k := range idx {
+		off := k * 512
+		if k < 0 {
+			off = -k - 1
+		}
+		rest := len(arenaBytes) - off
+		cp := caps[i]
+		switch cp {
+		case -1:
+			cp = rest
+		case -2:
+			cp = 512 + c.rng.Intn(rest-512+1)
+		}
+		views[i] = fmt.Sprintf("%d:%d", off, cp)
+	}
+	args := append([]string{hx(arenaBytes), strings.Join(views, ",")}, extra...)
+	c.add(op, args...)
+	res := safeExec(op, args)
+	site := map[string]string{"memcommitleaves": "inclusion.GenerateSubtreeRoots", "memsparsewrite": "share.SparseShareSplitter.Write"}[op]
+	c17Check(c, strings.HasPrefix(res, "none;"), site,
+		"modified the buffer the shares of the parsed blob point into", map[string]any{"case": desc, "first_modified_offset": strings.SplitN(res, ";", 2)[0]})
+	c.count(op + "_case")
+}
+
+func c17CommitCases(c *Ctx, r *Rng) {
+	// corpus: the witnesses of the Coq refutations (Proofs/MemCommitProofs.v): a 600-byte blob = 2 shares
+	// in one 1024-byte buffer, share version 0 (commit) and share version 1 (re-write)
+	{
+		g := genBlob{ns: append(make([]byte, 28), 7), data: bytes.Repeat([]byte{0x41}, 600)}
+		shs, _ := g.blob().ToShares()
+		c17AddCommitCase(c, "memcommitleaves", rawShares(shs), 0, []int{0, 1}, []int{-1, -1}, []string{"64"}, "corpus 2-share blob")
+		g1 := genBlob{ns: append(make([]byte, 28), 7), ver: 1, signer: bytes.Repeat([]byte{0x53}, 20), data: bytes.Repeat([]byte{0x42}, 600)}
+		shs1, _ := g1.blob().ToShares()
+		c17AddCommitCase(c, "memsparsewrite", rawShares(shs1), 0, []int{0, 1}, []int{-1, -1}, nil, "corpus 2-share v1 blob")
+	}
+	for i := 0; i < 30*c.scale; i++ {
+		shares, desc, multi := c17SparseSequence(c, r)
+		if len(shares) > 24 {
+			continue
+		}
+		idx, caps, layout := c17ViewLayout(r, len(shares))
+		slack := r.Intn(3) * 50
+		if r.Bool(50) {
+			thr := []string{"64", "1", "2", "3", "1000"}[r.Intn(5)]
+			c17AddCommitCase(c, "memcommitleaves", shares, slack, idx, caps, []string{thr}, desc+" | "+layout+" | thr "+thr)
+		} else {
+			c17AddCommitCase(c, "memsparsewrite", shares, slack, idx, caps, nil, desc+" | "+layout)
+		}
+		if multi {
+			c.mark("commit views " + desc + " | " + layout)
+		}
+	}
+}
+
+// C17commit end
